@@ -143,7 +143,9 @@ func (vc *VC) placeOf(v Val) *Place {
 
 func (vc *VC) ptrVal(pl *Place) Val {
 	v := Val{T: types.NewPointer(pl.Cur), Pl: pl}
-	if pl.Path == "" {
+	if pl.Local != "" {
+		v.C = []Term{"<local:" + pl.Local + ">"}
+	} else if pl.Path == "" {
 		v.C = []Term{pl.Addr}
 	} else if _, isArr := pl.Cur.Underlying().(*types.Array); isArr {
 		// pointer to an embedded array: the address of its element 0
@@ -168,6 +170,11 @@ func joinPath(a, b string) string {
 }
 
 func (vc *VC) famOf(pl *Place, l Leaf) string {
+	if pl.Local != "" {
+		key := pl.Local + "$" + joinPath(pl.Path, l.key())
+		vc.localSorts[key] = l.Sort
+		return key
+	}
 	fam := family(pl.Root, joinPath(pl.Path, l.key()))
 	vc.regFam(fam, l.Sort)
 	return fam
@@ -181,7 +188,11 @@ func (vc *VC) load(pl *Place, st *State) Val {
 	v := Val{T: pl.Cur}
 	for _, l := range ls {
 		fam := vc.famOf(pl, l)
-		v.C = append(v.C, sel(vc.get(st, fam), pl.Addr))
+		if pl.Local != "" {
+			v.C = append(v.C, vc.get(st, fam))
+		} else {
+			v.C = append(v.C, vc.sel(vc.get(st, fam), pl.Addr))
+		}
 	}
 	return v
 }
@@ -193,10 +204,17 @@ func (vc *VC) storeTo(pl *Place, v Val, st *State, fr *Frame) {
 	}
 	for i, l := range ls {
 		fam := vc.famOf(pl, l)
+		if pl.Local != "" {
+			vc.set(st, fam, v.C[i])
+			continue
+		}
 		vc.set(st, fam, store(vc.get(st, fam), pl.Addr, v.C[i]))
 		if fr != nil {
 			fr.wrote(fam)
 		}
+	}
+	if pl.Local != "" {
+		return
 	}
 	// embedded arrays inside a struct value that is stored as a whole: their
 	// contents become unknown (sound over-approximation)
@@ -430,6 +448,7 @@ func (vc *VC) run(fn *ssa.Function, args []Val, freeVars []Val, st *State, reach
 		}
 	} else {
 		fr.top = true
+		vc.topFrame = fr
 		fr.stack = []*ssa.Function{fn}
 		if fr.contract != nil {
 			fr.props = fr.contract.Props
@@ -641,12 +660,14 @@ func (fr *Frame) mergeVals(t types.Type, vals []Val, conds []Term, hint string) 
 				addr = ite(conds[i], vals[i].t(), addr)
 				continue
 			}
-			if vp.Path != pl.Path || !types.Identical(vp.Root, pl.Root) {
+			if vp.Path != pl.Path || !types.Identical(vp.Root, pl.Root) || vp.Local != pl.Local {
 				unsup("phi of pointers with different static paths (%s vs %s)", vp.Path, pl.Path)
 			}
 			addr = ite(conds[i], vp.Addr, addr)
 		}
-		pl.Addr = vc.define(fr.prefix+"."+hint, "Int", addr)
+		if pl.Local == "" {
+			pl.Addr = vc.define(fr.prefix+"."+hint, "Int", addr)
+		}
 		return vc.ptrVal(&pl)
 	}
 	for _, v := range vals {
@@ -727,7 +748,7 @@ func (fr *Frame) enterLoop(li *loopInfo, cur *State, rch Term) *State {
 		if old := fr.vals[phi]; old.Pl != nil {
 			pl := *old.Pl
 			pl.Addr = nv.C[0]
-			if pl.Path != "" {
+			if pl.Path != "" || pl.Local != "" {
 				// interior pointer that does not move inside the loop is kept
 				nv = old
 			} else {
@@ -771,6 +792,16 @@ func (fr *Frame) enterLoop(li *loopInfo, cur *State, rch Term) *State {
 		na := vc.fresh("$alloc~h", "Int")
 		vc.assume(sx("<=", old, na))
 		st.m["$alloc"] = na
+	}
+	// local variables (non-escaping cells) assigned in the loop
+	for al := range ms.locals {
+		pv, ok := fr.vals[al]
+		if !ok || pv.Pl == nil || pv.Pl.Local == "" {
+			continue
+		}
+		nv := vc.freshVal(pv.Pl.Local+"@loop", pv.Pl.Cur)
+		vc.storeTo(pv.Pl, nv, st, nil)
+		vc.assumeIf(rch, vc.wf(nv, st))
 	}
 	for _, ins := range b.Instrs {
 		phi, ok := ins.(*ssa.Phi)
